@@ -42,7 +42,8 @@ Definition ex_ops : list mop :=
   [MAdd (ex_es 257); MAdd (ex_es 0); MSetPCR 257;
    MWriteData (ex_data 257 None 400); MWriteData (ex_data 256 None 10); MWriteData (ex_data 257 None 3000);
    MSetPCR 999; MWriteTables; MSetPCR 257;
-   MWriteData (ex_data 257 (Some ex_af) 100); MRemove 256; MWriteData (ex_data 256 None 10); MWriteTables].
+   MWriteData (ex_data 257 (Some ex_af) 100); MRemove 256; MWriteData (ex_data 256 None 10); MAdd (ex_es 256);
+   MWriteData (ex_data 256 None 10); MWriteTables].
 
 Definition ex_run : mstate * list part := mux_run_parts (new_muxer 2) ex_ops.
 
